@@ -535,14 +535,14 @@ package stack
 //@   update after-call append#2: done[c] := true; bidx[c] := len(bs); cof[len(bs)] := c
 //@   update after-call sort.SliceStable#1: bidx := lambda c :: perm2[bidx[c]]; cof := lambda i :: cof[inv2[i]]
 //@   ensures [aggregateRefersBack C04] result != nil && fresh(result) && result.Snapshot == s
-//@   ensures [bucketsWellFormed C04] forall i :: 0 <= i && i < len(result.Buckets) ==> result.Buckets[i] != nil && fresh(result.Buckets[i]) && len(result.Buckets[i].IDs) >= 1 && LocsOK(result.Buckets[i].Stack.Calls)
-//@   ensures [bucketsSorted C13] forall i, j :: 0 <= i && i < j && j < len(result.Buckets) ==> !BucketLt(result.Buckets[j], result.Buckets[i])
-//@   ensures [idsAscending C04] forall i, p, q :: 0 <= i && i < len(result.Buckets) && 0 <= p && p < q && q < len(result.Buckets[i].IDs) ==> result.Buckets[i].IDs[p] <= result.Buckets[i].IDs[q]
-//@   at-return [everyGoroutineInOneSlot C04] forall j :: 0 <= j && j < len(s.Goroutines) ==> 0 <= bidx[owner[j]] && bidx[owner[j]] < len(result.Buckets) && 0 <= pos[j] && pos[j] < len(result.Buckets[bidx[owner[j]]].IDs) && result.Buckets[bidx[owner[j]]].IDs[pos[j]] == s.Goroutines[j].ID && cof[bidx[owner[j]]] == owner[j] && src[owner[j]][pos[j]] == j
-//@   at-return [everySlotIsOneGoroutine C04] forall i, p :: 0 <= i && i < len(result.Buckets) && 0 <= p && p < len(result.Buckets[i].IDs) ==> 0 <= src[cof[i]][p] && src[cof[i]][p] < len(s.Goroutines) && owner[src[cof[i]][p]] == cof[i] && pos[src[cof[i]][p]] == p && bidx[cof[i]] == i
-//@   at-return [sameBucketIffSimilar C05 uses=sigSimSymmetric+sigSimTransitive] forall i, j :: 0 <= i && i < len(s.Goroutines) && 0 <= j && j < len(s.Goroutines) ==> (owner[i] == owner[j] <==> SimSig(&s.Goroutines[i].Signature, &s.Goroutines[j].Signature, similar))
-//@   at-return [bucketSignatureGeneralisesMembers C12] forall j :: 0 <= j && j < len(s.Goroutines) ==> GenSig(&result.Buckets[bidx[owner[j]]].Signature, &s.Goroutines[j].Signature)
-//@   at-return [firstFlag C04] (forall j :: 0 <= j && j < len(s.Goroutines) && s.Goroutines[j].First ==> result.Buckets[bidx[owner[j]]].First) && (forall i :: 0 <= i && i < len(result.Buckets) && result.Buckets[i].First ==> 0 <= fsrc[cof[i]] && fsrc[cof[i]] < len(s.Goroutines) && s.Goroutines[fsrc[cof[i]]].First && bidx[owner[fsrc[cof[i]]]] == i)
+//@   ensures [bucketsWellFormed C04 needs=bucketsOK+bucketIDs+finalBase+permutation+permutationInverse] forall i :: 0 <= i && i < len(result.Buckets) ==> result.Buckets[i] != nil && fresh(result.Buckets[i]) && len(result.Buckets[i].IDs) >= 1 && LocsOK(result.Buckets[i].Stack.Calls)
+//@   ensures [bucketsSorted C13 needs=sortedByComparator+permutation+permutationInverse] forall i, j :: 0 <= i && i < j && j < len(result.Buckets) ==> !BucketLt(result.Buckets[j], result.Buckets[i])
+//@   ensures [idsAscending C04 needs=bucketIDs+finalBase+permutation+permutationInverse] forall i, p, q :: 0 <= i && i < len(result.Buckets) && 0 <= p && p < q && q < len(result.Buckets[i].IDs) ==> result.Buckets[i].IDs[p] <= result.Buckets[i].IDs[q]
+//@   at-return [everyGoroutineInOneSlot C04 needs=bucketsOK+finalBase+permutation+permutationInverse] forall j :: 0 <= j && j < len(s.Goroutines) ==> 0 <= bidx[owner[j]] && bidx[owner[j]] < len(result.Buckets) && 0 <= pos[j] && pos[j] < len(result.Buckets[bidx[owner[j]]].IDs) && result.Buckets[bidx[owner[j]]].IDs[pos[j]] == s.Goroutines[j].ID && cof[bidx[owner[j]]] == owner[j] && src[owner[j]][pos[j]] == j
+//@   at-return [everySlotIsOneGoroutine C04 needs=bucketsOK+finalBase+permutation+permutationInverse] forall i, p :: 0 <= i && i < len(result.Buckets) && 0 <= p && p < len(result.Buckets[i].IDs) ==> 0 <= src[cof[i]][p] && src[cof[i]][p] < len(s.Goroutines) && owner[src[cof[i]][p]] == cof[i] && pos[src[cof[i]][p]] == p && bidx[cof[i]] == i
+//@   at-return [sameBucketIffSimilar C05 uses=sigSimSymmetric+sigSimTransitive needs=membersOKfinal+finalBase] forall i, j :: 0 <= i && i < len(s.Goroutines) && 0 <= j && j < len(s.Goroutines) ==> (owner[i] == owner[j] <==> SimSig(&s.Goroutines[i].Signature, &s.Goroutines[j].Signature, similar))
+//@   at-return [bucketSignatureGeneralisesMembers C12 uses=sigSameTransport needs=membersOKfinal+bucketSigIsKey+bucketsOK+finalBase+permutation+permutationInverse] forall j :: 0 <= j && j < len(s.Goroutines) ==> GenSig(&result.Buckets[bidx[owner[j]]].Signature, &s.Goroutines[j].Signature)
+//@   at-return [firstFlag C04 needs=bucketsOK+finalBase+permutation+permutationInverse] (forall j :: 0 <= j && j < len(s.Goroutines) && s.Goroutines[j].First ==> result.Buckets[bidx[owner[j]]].First) && (forall i :: 0 <= i && i < len(result.Buckets) && result.Buckets[i].First ==> 0 <= fsrc[cof[i]] && fsrc[cof[i]] < len(s.Goroutines) && s.Goroutines[fsrc[cof[i]]].First && bidx[owner[fsrc[cof[i]]]] == i)
 //@   loop 0: invariant -1 <= rangeindex && rangeindex < len(s.Goroutines) && SnapOK(s)
 //@   loop 0: invariant [countsOK C04 needs=countsOK+sigMergeFresh+sigMergeKeepsFrames+sigMergeStackShape] CountsOK(b, counts, keyOf)
 //@   loop 0: invariant [slotsBijective C04 needs=slotsBijective+countsOK] SlotsOK(s, rangeindex, counts, owner, pos, src)
@@ -561,8 +561,10 @@ package stack
 //@   loop 1: invariant [slotsBijective C04] SlotsOK(s, rangeindex - 1, counts, owner, pos, src)
 //@   loop 1: invariant [firstOK C04] FirstOK(s, rangeindex - 1, counts, owner, fsrc)
 //@   loop 1: invariant SnapOK(s) && !found && routine == s.Goroutines[rangeindex] && 0 <= rangeindex && rangeindex < len(s.Goroutines)
-//@   loop 2: invariant SnapOK(s) && CountsOK(b, counts, keyOf) && fresh(bs) && SlotsOK(s, len(s.Goroutines) - 1, counts, owner, pos, src) && FirstOK(s, len(s.Goroutines) - 1, counts, owner, fsrc)
+//@   loop 2: invariant [finalBase C04] SnapOK(s) && CountsOK(b, counts, keyOf) && fresh(bs) && SlotsOK(s, len(s.Goroutines) - 1, counts, owner, pos, src) && FirstOK(s, len(s.Goroutines) - 1, counts, owner, fsrc)
 //@   loop 2: invariant [bucketsOK C04] BucketsOK(b, bs, counts, done, bidx, cof)
+//@   loop 2: invariant [bucketIDs C04 needs=bucketIDs+bucketIDsSeparate+finalBase+sortedAscending] forall i :: 0 <= i && i < len(bs) ==> len(bs[i].IDs) >= 1 && live(bs[i].IDs) && fresh(bs[i].IDs) && (forall p, q :: 0 <= p && p < q && q < len(bs[i].IDs) ==> bs[i].IDs[p] <= bs[i].IDs[q])
+//@   loop 2: invariant [bucketIDsSeparate C04 needs=bucketIDsSeparate+bucketsOK+finalBase+visitedIsDone] forall i, key *Signature :: 0 <= i && i < len(bs) && dom(b, key) && !visited[key] ==> arr(bs[i].IDs) != arr(b[key].ids)
 //@   loop 2: invariant [membersOKfinal C05 C12] KeysWF(counts, keyOf) && MembersSimilar(s, len(s.Goroutines) - 1, similar, keyOf, owner) && KeyGeneralises(s, len(s.Goroutines) - 1, keyOf, owner) && KeysDissimilar(similar, counts, keyOf)
 //@   loop 2: invariant [bucketSigIsKey C12] forall c *count :: counts[c] && done[c] ==> SigSame(&bs[bidx[c]].Signature, keyOf[c])
 //@   loop 2: invariant [visitedIsDone C04] forall key *Signature :: dom(b, key) ==> (visited[key] <==> done[b[key]])
